@@ -30,6 +30,7 @@ type Program struct {
 	repo               string
 	loadSecs           float64
 	harnessFiles       []string
+	skippedOpt         string
 }
 
 var repoDir = "/repo"
@@ -46,7 +47,7 @@ func init() {
 
 // harnessOverlay maps virtual files in the repo package directories to the
 // harness sources under /verif/harness/<relpkg>/ (relpkg "." = root -> "root").
-func harnessOverlay(relpkgs []string, native bool) (map[string][]byte, []string, error) {
+func harnessOverlay(relpkgs []string, native bool, withOpt bool) (map[string][]byte, []string, error) {
 	ov := map[string][]byte{}
 	var files []string
 	for _, rp := range relpkgs {
@@ -65,6 +66,9 @@ func harnessOverlay(relpkgs []string, native bool) (map[string][]byte, []string,
 		}
 		for _, e := range ents {
 			if !strings.HasSuffix(e.Name(), ".go") || !strings.HasPrefix(e.Name(), "zz_verif_") {
+				continue
+			}
+			if !withOpt && strings.HasSuffix(e.Name(), "_opt.go") {
 				continue
 			}
 			b, err := os.ReadFile(filepath.Join(hdir, e.Name()))
@@ -115,8 +119,24 @@ func packageName(dir string) (string, error) {
 	return "", fmt.Errorf("no package clause found in %s", dir)
 }
 
+// loadProgram loads the packages with every harness; if that fails to
+// type-check and optional harnesses (zz_verif_*_opt.go: they touch private
+// state) exist, it retries without them and records that they were skipped.
 func loadProgram(relpkgs []string) (*Program, error) {
-	ov, files, err := harnessOverlay(relpkgs, false)
+	p, err := loadProgramOpt(relpkgs, true)
+	if err == nil {
+		return p, nil
+	}
+	p2, err2 := loadProgramOpt(relpkgs, false)
+	if err2 != nil {
+		return nil, err
+	}
+	p2.skippedOpt = "optional private-state harnesses skipped (harness-build): " + firstLine(err.Error())
+	return p2, nil
+}
+
+func loadProgramOpt(relpkgs []string, withOpt bool) (*Program, error) {
+	ov, files, err := harnessOverlay(relpkgs, false, withOpt)
 	if err != nil {
 		return nil, err
 	}
